@@ -666,6 +666,25 @@ def generate(seed, index):
             if tag:
                 cover.append(tag)
             clients[c].extend(ops)
+    # F11: read-only observations (str(rule) - what a print, a log line or a test id does) at
+    # seeded places inside the chains; an observation must never turn an ill-formed or undefined
+    # specification into one that yields a verdict.  Own PRNG stream: the chains stay as they are.
+    orng = random.Random(f"{seed}:C13:{index}:observe")
+    n_observed = 0
+    if orng.random() < 0.5:
+        for c in range(nclients):
+            out = []
+            for op in clients[c]:
+                if op["op"] == "apply" and orng.random() < 0.25:
+                    out.append({"op": "str", "obj": op["obj"]})
+                    n_observed += 1
+                out.append(op)
+                if op["op"] == "call" and orng.random() < 0.12:
+                    out.append({"op": "str", "obj": op["obj"]})
+                    n_observed += 1
+            clients[c] = out
+    if n_observed:
+        kinds["observed"] = n_observed
     clients[0] = setup + clients[0]
     schedule = [0] * len(setup)
     rest = []
